@@ -3,7 +3,7 @@
 //! `Dyn` bodies evaluated against the anchor positions of a first serialisation pass.
 
 use std::collections::HashMap;
-use std::rc::Rc;
+use std::sync::Arc;
 
 /// label -> (start of the box, start of its payload)
 pub type Anchors = HashMap<String, (u64, u64)>;
@@ -12,7 +12,7 @@ pub type Anchors = HashMap<String, (u64, u64)>;
 pub enum Body {
     Leaf(Vec<u8>),
     /// payload computed from anchor positions; its length must not depend on them
-    Dyn(Rc<dyn Fn(&Anchors) -> Vec<u8>>),
+    Dyn(Arc<dyn Fn(&Anchors) -> Vec<u8> + Send + Sync>),
     /// `prefix` (e.g. version/flags, entry counts, sample-entry fields), children, `suffix` (spare bytes)
     Kids { prefix: Vec<u8>, kids: Vec<Node>, suffix: Vec<u8> },
 }
@@ -38,7 +38,7 @@ impl Node {
     pub fn kids_with_prefix(cc: &[u8; 4], prefix: Vec<u8>, kids: Vec<Node>) -> Node {
         Node { cc: *cc, large: false, label: None, body: Body::Kids { prefix, kids, suffix: vec![] }, spare: vec![] }
     }
-    pub fn dynamic(cc: &[u8; 4], f: Rc<dyn Fn(&Anchors) -> Vec<u8>>) -> Node {
+    pub fn dynamic(cc: &[u8; 4], f: Arc<dyn Fn(&Anchors) -> Vec<u8> + Send + Sync>) -> Node {
         Node { cc: *cc, large: false, label: None, body: Body::Dyn(f), spare: vec![] }
     }
     pub fn labelled(mut self, l: &str) -> Node {
